@@ -25,6 +25,8 @@ from thorough import signature  # noqa: E402
 
 def run(props: list[str], root: Path) -> dict[str, tuple[int, dict, list[str]]]:
     env = dict(os.environ, VERIF_NO_EVIDENCE="1")
+    if root != REPO:
+        env["VERIF_SCRATCH_DIR"] = str(root)
     out: dict[str, tuple[int, dict, list[str]]] = {}
     if not props:
         p = subprocess.run([str(V / "check"), "ALL", "--root", str(root)], capture_output=True, text=True, cwd=str(V), env=env)
